@@ -1,7 +1,7 @@
 (** C09 — memory store, no cap, no size limit: a delivery that committed with an id is in its mailbox
     at the end unless a removal of that id or a purge of that mailbox committed after it.
     Sequential fact about [seq_run], transported to every interleaving by linearizability. *)
-From IV Require Import Model.Conc Model.ConcMem Proofs.ConcBase Proofs.ConcMemInv Proofs.ConcStmts Proofs.ConcMemLin.
+From IV Require Import Model.Conc Model.ConcMem Proofs.ConcBase Proofs.ConcMemInv Proofs.ConcStmts Proofs.ConcMemLin Proofs.ConcMemLinEnf.
 From Coq Require Import Lia ZifyN ZifyNat ZifyBool.
 
 Lemma seq_run_app touch cap s l1 l2 :
@@ -114,4 +114,67 @@ Proof.
   apply app_eq_len in S1; [|rewrite seq_run_length; now rewrite !map_length].
   assert (id' = id) by (inversion S1; congruence). subst id'.
   apply Hk. exact Hhas.
+Qed.
+
+(* ------------------------------------------------ every configuration: "unless removed or evicted" *)
+
+(** With a cap, a later delivery to the same mailbox may evict; with a size limit the enforcer's evictions
+    are removals committed by the enforcer, i.e. [ORemove] entries of the log. *)
+Definition harmless_c (cap : N) (mb id : N) (o : op) : Prop :=
+  match o with
+  | ORemove mb' id' => mb' <> mb \/ id' <> id
+  | OPurge mb' => mb' <> mb
+  | OAdd mb' _ _ => cap = 0 \/ mb' <> mb
+  | _ => True
+  end.
+
+Lemma seq_exec_keeps_c cap mb id s o : harmless_c cap mb id o -> has id (sget mb s) -> has id (sget mb (fst (seq_exec true cap s o))).
+Proof.
+  intros Hh Hin. unfold seq_exec.
+  destruct o as [mb' tag size|mb' i|mb'|mb'|mb' i|mb' i|mb'|]; cbn [fst harmless_c] in *.
+  - destruct (N.eq_dec mb mb') as [->|Hne].
+    + destruct Hh as [->|Hh]; [|congruence]. unfold box_insert, box_cap. cbn [N.eqb fst snd]. rewrite sget_aset_same.
+      unfold has in *. cbn [b_msgs]. rewrite find_app. destruct (find_msg id (b_msgs (sget mb' s))); congruence.
+    + unfold box_insert. destruct (box_cap cap _) as [b2 ev]. cbn [fst]. rewrite sget_aset_other by assumption. exact Hin.
+  - now rewrite sget_rd.
+  - now rewrite sget_rd.
+  - now rewrite sget_rd.
+  - unfold box_seen. destruct (find_msg i (b_msgs (sget mb' s))) eqn:E; cbn [fst]; [|now rewrite sget_rd].
+    destruct (N.eq_dec mb mb') as [->|Hne]; [rewrite sget_aset_same | rewrite sget_aset_other by assumption; exact Hin].
+    unfold has in *. cbn [b_msgs]. now apply find_mark.
+  - unfold box_remove. destruct (find_msg i (b_msgs (sget mb' s))) eqn:E; cbn [fst]; [|now rewrite sget_rd].
+    destruct (N.eq_dec mb mb') as [->|Hne]; [rewrite sget_aset_same | rewrite sget_aset_other by assumption; exact Hin].
+    unfold has in *. cbn [b_msgs]. apply find_del; [|exact Hin]. destruct Hh; congruence.
+  - rewrite sget_aset_other by congruence. exact Hin.
+  - exact Hin.
+Qed.
+
+Lemma seq_run_keeps_c cap mb id l : forall s, Forall (harmless_c cap mb id) l -> has id (sget mb s) ->
+  has id (sget mb (fst (seq_run true cap s l))).
+Proof.
+  induction l as [|o l IH]; intros s Hf Hin; cbn [seq_run fst]; [exact Hin|].
+  inversion Hf; subst.
+  pose proof (seq_exec_keeps_c cap mb id s o H1 Hin) as Hk.
+  destruct (seq_exec true cap s o) as [s1 r]. cbn [fst] in Hk.
+  specialize (IH s1 H2 Hk). destruct (seq_run true cap s1 l). exact IH.
+Qed.
+
+(** Every cap, every size limit, every schedule: a message that is in its mailbox after some prefix of the commit
+    order is still there at the end unless, after that prefix, a removal of that id committed (by a client or —
+    size eviction — by the enforcer), its mailbox was purged, or (with a cap) another delivery to its mailbox
+    committed. *)
+Theorem mem_present_stays_unless_removed_or_evicted : forall cap max ops sched s pre post mb id,
+  run (init_sys cap max [] enf0 ops) sched = Fin s ->
+  s_log s = pre ++ post ->
+  find_msg id (b_msgs (sget mb (fst (seq_run true cap [] (map lop pre))))) <> None ->
+  (forall e, In e post -> harmless_c cap mb id (lop e)) ->
+  x_lock (getx mb s) = None ->
+  find_msg id (b_msgs (x_box (getx mb s))) <> None.
+Proof.
+  intros cap max ops sched s pre post mb id Hr Hlog Hpre Hpost Hlock.
+  pose proof (ConcMemLinEnf.mem_linearizable_with_enforcer_holds cap max ops sched) as H. rewrite Hr in H.
+  destruct H as [_ S2]. rewrite <- (S2 mb Hlock). rewrite Hlog, map_app, seq_run_app. cbn [fst].
+  assert (Hf : Forall (harmless_c cap mb id) (map lop post)).
+  { apply Forall_forall. intros o Ho. apply in_map_iff in Ho. destruct Ho as (e & <- & He). exact (Hpost e He). }
+  exact (seq_run_keeps_c cap mb id (map lop post) _ Hf Hpre).
 Qed.
